@@ -88,8 +88,15 @@ class Region(abc.ABC):
         # if they directly convertible (e.g., 1. * u.deg == 60. * u.arcmin)
         try:
             for param in self_params:
-                # np.any is used for SkyCoord array comparisons
-                if np.any(getattr(self, param) != getattr(other, param)):
+                # np.any is used for SkyCoord array comparisons; compare
+                # in both directions so that the result does not depend
+                # on the operand order (the unit conversion in Quantity
+                # comparisons and the relative tolerance of PixCoord
+                # are applied to one side only)
+                self_val = getattr(self, param)
+                other_val = getattr(other, param)
+                if (np.any(self_val != other_val)
+                        or np.any(other_val != self_val)):
                     return False
         except (TypeError, ValueError):
             # TypeError is raised from SkyCoord comparison when they do
